@@ -39,14 +39,15 @@ Definition sig_alg (k : keyspec) : option alg :=
      else if ks_size k =? 4096 then Some PS512 else None)
   else None.
 
-(* public key as the code sees it: RSA with modulus size in bytes (key.Size()),
-   ECDSA with Curve.Params().BitSize, anything else *)
-Inductive pubkey := PkRSA (modulus_bytes : Z) | PkEC (bits : Z) | PkEd25519 | PkOther.
+(* public key as the code sees it: RSA with the bit length of the modulus (key.N.BitLen();
+   key.Size() is that rounded up to whole bytes), ECDSA with Curve.Params().BitSize, anything else *)
+Inductive pubkey := PkRSA (modulus_bitlen : Z) | PkEC (bits : Z) | PkEd25519 | PkOther.
+Definition rsa_size_bytes (bitlen : Z) : Z := (bitlen + 7) / 8.   (* rsa.PublicKey Size() *)
 
 (* ExtractKeySpec: None = error *)
 Definition extract_keyspec (pk : pubkey) : option keyspec :=
   match pk with
-  | PkRSA b => let bits := b * 8 in
+  | PkRSA b => let bits := rsa_size_bytes b * 8 in
                if (bits =? 2048) || (bits =? 3072) || (bits =? 4096) then Some (KS 1 bits) else None
   | PkEC bits => if (bits =? 256) || (bits =? 384) || (bits =? 521) then Some (KS 2 bits) else None
   | _ => None
